@@ -20,6 +20,9 @@ RoutesM == Same("construct") \cup Same("pickle") \cup Same("deepcopy")
                  [r |-> "upcast", from |-> "Molecule", to |-> "Structure"]}
            \cup {[r |-> "concat", from |-> "Structure", to |-> "Structure"], [r |-> "concat", from |-> "Molecule", to |-> "Molecule"]}
            \cup {[r |-> "ensemble_from", from |-> "Molecule", to |-> "ConformerEnsemble"]}
+           \* constructors called with the source's own arrays as explicit arguments (coords=, atomic_charges=, weights=)
+           \cup {[r |-> "construct_arrays", from |-> k, to |-> k] : k \in {"CartesianGeometry", "Structure", "Molecule", "ConformerEnsemble"}}
+           \cup {[r |-> "upcast_arrays", from |-> "Conformer", to |-> "Molecule"], [r |-> "upcast_arrays", from |-> "Structure", to |-> "Molecule"]}
 DevNone == {}
 DevShared == {"SharedAttribOnEvolve"}
 DevDrop == {"DropCharges"}
